@@ -104,6 +104,26 @@ pub mod prelude {
     { u16::from_be_bytes(b) }
 
     #[verifier::external_body]
+    pub fn i16_from_be_bytes(b: [u8; 2]) -> (r: i16)
+        ensures be_int(r as int, 2) == b@
+    { i16::from_be_bytes(b) }
+    #[verifier::external_body]
+    pub fn u32_from_be_bytes(b: [u8; 4]) -> (r: u32)
+        ensures be_int(r as int, 4) == b@
+    { u32::from_be_bytes(b) }
+    #[verifier::external_body]
+    pub fn i32_from_be_bytes(b: [u8; 4]) -> (r: i32)
+        ensures be_int(r as int, 4) == b@
+    { i32::from_be_bytes(b) }
+    #[verifier::external_body]
+    pub fn u64_from_be_bytes(b: [u8; 8]) -> (r: u64)
+        ensures be_int(r as int, 8) == b@
+    { u64::from_be_bytes(b) }
+    #[verifier::external_body]
+    pub fn i64_from_be_bytes(b: [u8; 8]) -> (r: i64)
+        ensures be_int(r as int, 8) == b@
+    { i64::from_be_bytes(b) }
+    #[verifier::external_body]
     pub fn u16_to_be_bytes(x: u16) -> (r: [u8; 2])
         ensures r[0] as int == (x as int) / 256, r[1] as int == (x as int) % 256, r@ == be_int(x as int, 2)
     { x.to_be_bytes() }
